@@ -24,7 +24,7 @@ SumFun(f, S) == IF S = {} THEN 0 ELSE LET x == CHOOSE y \in S : TRUE IN f[x] + S
 
 \* an event that bin/vcheck marked as an instance of a listed known finding (known_findings.jsonl):
 \* it is still consumed and applied to the tracked state, but its property invariants are skipped
-IsKnown(e) == "known" \in DOMAIN e /\ e.known
+IsKnown(e) == "kfmark" \in DOMAIN e /\ e.kfmark
 
 \* acceptance: every line was consumed (one state per line + the initial state)
 Accepted == TLCGet("stats").diameter - 1 = Len(Trace)
